@@ -44,7 +44,7 @@ def run(chk):
     chk.prove('Supv.Props.C09', extra_targets=['drv_net'])
     cluster_stage(chk)
     import c16free
-    c16free.liveness_stage(chk, 'C09:free:', [{'ending': True}, {}], 150, 2000)
+    c16free.liveness_stage(chk, 'C09:free:', [{'ending': True}, {}], 150, 6000)
 
 
 def replay(chk, path):
